@@ -250,6 +250,7 @@ HEADER = ("(* GENERATED on every run by vlib/translate.py from the current sourc
 #            statements before the method's only top-level while are translated (the initial record), with select="loop"
 #            the while itself: one evaluation of its test, then the body (loop_again) or what follows the loop
 #            (`for i, x in enumerate(C)` with C observed through len: the test is i < len(C), i += 1 after the body, i starts at 0)
+#            (`for x in C` likewise, the position being the hidden local named by loop_index)
 #   loop_again  constructor: a top-level `while True:` is translated as ONE iteration: `break` goes on with what follows
 #            the loop; reaching the end of the body appends the constructor and ends the path (the next iteration is
 #            the same body again, on the values the effects left behind)
@@ -366,13 +367,13 @@ class _EndLoop(ast.stmt):
 class FnSpec:
     def __init__(self, path, cls, method, name, reads=(), effects=(), draws=(), ret="unit", ignore_calls=("print", "dprint"),
                  select=None, stateops=(), bindings=(), inline=(), ignore_stmts=(), aliases=(), guards=(), decorator=None,
-                 raising=(), switches=(), loop_again=None, local_state=False):
+                 raising=(), switches=(), loop_again=None, local_state=False, loop_index=None):
         self.path, self.cls, self.method, self.name, self.select = path, cls, method, name, select
         self.stateops, self.bindings, self.inline = list(stateops), list(bindings), list(inline)
         self.ignore_stmts, self.aliases = list(ignore_stmts), list(aliases)
         self.guards, self.decorator = list(guards), decorator
         self.raising, self.switches, self.loop_again = list(raising), list(switches), loop_again
-        self.local_state = local_state
+        self.local_state, self.loop_index = local_state, loop_index
         self.reads = [tuple(r) + (("",) if len(r) == 3 else ()) for r in reads]
         self.effects = [tuple(e) + (((),) if len(e) == 3 else ()) for e in effects]
         self.draws, self.ret, self.ignore_calls = list(draws), ret, set(ignore_calls)
@@ -787,15 +788,20 @@ class FxTr:
             # `for i, x in enumerate(<collection observed through len>):` as ONE iteration: i is a loop-carried local of the
             # state record (it starts at 0: enumerate), the test is i < len, x is only read through listed observations;
             # after the body i += 1 and the loop goes round again
-            ok = (self.spec.loop_again and self.spec.local_state and not s.orelse and env["ctl"][1] is None
-                  and isinstance(s.iter, ast.Call) and isinstance(s.iter.func, ast.Name) and s.iter.func.id == "enumerate"
-                  and len(s.iter.args) == 1 and not s.iter.keywords and isinstance(s.target, ast.Tuple)
-                  and len(s.target.elts) == 2 and all(isinstance(t, ast.Name) for t in s.target.elts)
-                  and ("local", s.target.elts[0].id) in env["vars"])
-            if not ok:
-                raise Unsupported("for (only `for i, x in enumerate(<observed collection>)` with loop_again and i in the local state)")
-            iname = s.target.elts[0].id
-            n = self.expr(ast.Call(func=ast.Name(id="len", ctx=ast.Load()), args=[s.iter.args[0]], keywords=[]), env)
+            base = self.spec.loop_again and self.spec.local_state and not s.orelse and env["ctl"][1] is None
+            enum = (base and isinstance(s.iter, ast.Call) and isinstance(s.iter.func, ast.Name) and s.iter.func.id == "enumerate"
+                    and len(s.iter.args) == 1 and not s.iter.keywords and isinstance(s.target, ast.Tuple)
+                    and len(s.target.elts) == 2 and all(isinstance(t, ast.Name) for t in s.target.elts)
+                    and ("local", s.target.elts[0].id) in env["vars"])
+            # `for x in <observed collection>:` -- the position is the hidden loop-carried local named by loop_index
+            plain = (base and not enum and isinstance(s.target, ast.Name) and getattr(self.spec, "loop_index", None)
+                     and ("local", self.spec.loop_index) in env["vars"])
+            if not (enum or plain):
+                raise Unsupported("for (only `for i, x in enumerate(C)` / `for x in C` (loop_index) over an observed collection, "
+                                  "with loop_again and the index in the local state)")
+            iname = s.target.elts[0].id if enum else self.spec.loop_index
+            coll = s.iter.args[0] if enum else s.iter
+            n = self.expr(ast.Call(func=ast.Name(id="len", ctx=ast.Load()), args=[coll], keywords=[]), env)
             c = f"(Z.ltb {env['vars'][('local', iname)].term} {n.term})"
             env2 = self.copy(env)
             env2["ctl"] = (env["ctl"][0], (rest, k))
@@ -1149,7 +1155,8 @@ def translate_fn(spec, state, record, prefix, effect_type):
         # `<initialisation>; while ..: ..; <rest>`: "before_loop" = the initialisation alone (the loop-carried locals are the
         # state record: local_state), "loop" = ONE iteration of the while (and what follows it when it ends)
         stmts = [x for x in stmts if not (isinstance(x, ast.Expr) and isinstance(x.value, ast.Constant))]
-        pos = [i for i, x in enumerate(stmts) if isinstance(x, (ast.While, ast.For))]
+        pos = [i for i, x in enumerate(stmts) if isinstance(x, (ast.While, ast.For))
+               and not any(_match(pat, x, {}) for (pat, _, _, _) in tr.effects)]      # a loop listed as an effect is a statement
         if len(pos) != 1:
             raise Unsupported(f"{spec.cls}.{spec.method}: not exactly one top-level loop")
         stmts = stmts[:pos[0]] if spec.select == "before_loop" else stmts[pos[0]:]
